@@ -31,6 +31,35 @@ def expected_sequence(nodes, root_spelling):
     return [p.encode() for p in out]
 
 
+BLANK_ROOTS = [" ", "  ", "\t", "\n", " \n ", "\n\n", " \t", "\x0b", "\r"]
+
+
+def long_chain_tree(rng):
+    """A directory whose name contains a newline (or another hostile piece) with a chain of 150-255-byte names beneath it, so
+    that single records reach several kilobytes — beyond stdio buffer sizes — with the hostile byte early in the record."""
+    nodes = [treegen.Node("r", "d")]
+    head = rng.choice(["new\nline", "tab\there", " lead", "q'uote", "nl\n", "\n", "a\nb\nc"])
+    p = "r/" + head
+    nodes.append(treegen.Node(p, "d"))
+    nodes.append(treegen.Node("r/plain", "f"))
+    total = len(p.encode())
+    for lvl in range(rng.randint(3, 12)):
+        ch = rng.choice(["a", "b", "é", "x", "Z"])
+        n = rng.choice([150, 200, 250, 255]) // len(ch.encode())
+        name = (ch * n)[:n]
+        if lvl % 3 == 1:
+            name = name[:-3] + rng.choice(["\n", " ", "'"]) + "yz"
+        if total + len(name.encode()) + 1 > 3600:
+            break
+        p = p + "/" + name
+        total += len(name.encode()) + 1
+        nodes.append(treegen.Node(p, "d"))
+        nodes.append(treegen.Node(p + "/f" + str(lvl), "f"))
+        if rng.random() < 0.5:
+            nodes.append(treegen.Node(p + "/g\n" + str(lvl), "f"))
+    return nodes
+
+
 def worker(job):
     k, ntrees, seed = job
     st = Stats()
@@ -40,18 +69,30 @@ def worker(job):
         for t in range(ntrees):
             sb = os.path.join(base, "t%d" % t)
             os.makedirs(sb)
-            nodes = treegen.hostile_tree(rng, "r", max_nodes=rng.choice([6, 14, 30]))
+            shape = rng.choice(["hostile", "hostile", "hostile", "long-chain"])
+            nodes = long_chain_tree(rng) if shape == "long-chain" else treegen.hostile_tree(rng, "r", max_nodes=rng.choice([6, 14, 30]))
             try:
                 treegen.build(sb, nodes)
             except OSError as e:
                 common.force_rmtree(sb)
                 continue
             st.inc("trees")
+            st.inc("tree_shape:" + shape)
+            for n_ in nodes:
+                st.add("record_length_kb", len(n_.path.encode()) // 1024)
+                if len(n_.path.encode()) > 1100:
+                    st.inc("records_longer_than_1100_bytes")
             for n in nodes:
                 for c in treegen.hostile_classes(n.path.rsplit("/", 1)[-1]):
                     st.add("hostile_classes", c)
                     st.inc("names_with:" + c)
-            spelling = rng.choice(["r", "./r", "r/", os.path.join(sb, "r"), "r//", "./r/"])
+            spelling = rng.choice(["r", "./r", "r/", os.path.join(sb, "r"), "r//", "./r/", "BLANK", "BLANK", "BLANK/"])
+            if spelling.startswith("BLANK"):
+                # the starting point itself is a blank-only (or newline-only) name: the whole record is then blank
+                blank = rng.choice(BLANK_ROOTS)
+                os.rename(os.path.join(sb, "r"), os.path.join(sb, blank))
+                spelling = spelling.replace("BLANK", blank)
+                st.inc("blank_only_starting_points")
             st.add("root_spellings", spelling if not spelling.startswith("/") else "<absolute>")
             exp = expected_sequence(nodes, spelling)
             env = common.clean_env()
@@ -129,12 +170,14 @@ def worker(job):
 def run(ctx):
     ctx.rule = ("trees (depth <= 4) whose names are arbitrary valid UTF-8 without '/' and NUL: only blanks, edge blanks, leading "
                 "dashes, newlines, tabs, quotes, backslashes, {}, $(), glob characters, control characters, 4-byte characters, "
-                "255-byte names; starting point spelled r, ./r, r/, r//, ./r/, absolute; -print0/-print/-fprint0 and the real "
+                "255-byte names, plus chains of 150-255-byte names below a directory whose name contains a newline (records of several KB); "
+                "starting point spelled r, ./r, r/, r//, ./r/, absolute, or itself a blank-only / newline-only name; -print0/-print/-fprint0 and the real "
                 "pipe into xargs -0 [-n k]; distinct = expected path sequence")
     ctx.assumptions = ["valid UTF-8 names only (as stated)", "expected bytes come from the tree spec, not from reading the file system back"]
     nw = common.NCPU
     n = ctx.scale(640, 12800)
     ctx.pmap(worker, [(k, n // nw, ctx.seed) for k in range(nw)])
     for c in ("names_with:newline", "names_with:leading-dash", "names_with:quote", "names_with:backslash", "names_with:only-blanks",
-              "names_with:braces", "names_with:glob", "names_with:4byte", "names_with:long", "names_with:control", "pipelines"):
+              "names_with:braces", "names_with:glob", "names_with:4byte", "names_with:long", "names_with:control", "pipelines", "blank_only_starting_points",
+              "tree_shape:long-chain"):
         ctx.require(c, 1)
